@@ -12,7 +12,7 @@ notes = open(os.path.join(src, "notes.md")).read()
 first = " ".join(notes.split("\n\n")[0:2]).replace("\n", " ")[:600]
 meta = {
     "id": sid, "property": rid[:3], "checks": checks, "expect": "caught",
-    "origin": "independent sub-agent (fifth round; asked for new code sites and less used API entry points), given only the property text, a scratch worktree and one-line summaries of the earlier changes to avoid",
+    "origin": "independent sub-agent (round " + rid[-1] + "; asked for new code sites, less used API entry points and configurations), given only the property text, a scratch worktree and one-line summaries of the earlier changes to avoid",
     "needs": first,
     "confirmed": "tools/confirm_seed.sh in a scratch worktree of /repo HEAD: demo.py exits 0 unpatched, 1 with patch.diff; ropetest: 2104 passed with the patch",
     "rebased": False,
